@@ -30,7 +30,7 @@ Wrap == /\ wraps < W
 WrapShared == /\ wraps < W /\ own <= SK /\ wraps = 0
               /\ \E w \in ShareWrappers(s) : s' = w
               /\ share' \in BOOLEAN
-              /\ own' = 0 /\ wraps' = wraps + 1
+              /\ own' = KO /\ wraps' = wraps + 1      \* no outer keywords next to a sharing wrapper (they multiply the thorough tier by |OuterAtoms|)
 
 Next == AddKw \/ Wrap \/ WrapShared
 Spec == Init /\ [][Next]_vars
